@@ -115,6 +115,18 @@ Theorem C12_deadlock_report : forall g cs cfg pol ws pr lc,
   (forall c v, In (c, v) ds -> is_cycle (succs g) c /\ In v c).
 Proof. exact deadlock_report. Qed.
 
+(* END TO END, no side conditions left: on every wait-for graph with at most max_cycle_length transactions
+   (default 100; the property quantifies over <= 8) detect_cycles terminates within its fuel, the detector reports
+   a deadlock exactly when the recorded wait-for relation has a cycle, every reported cycle is a cycle of that
+   relation, and the victim it names belongs to that cycle. *)
+Theorem C12_deadlock_detected_iff_cycle : forall g cfg pol ws pr lc,
+  enabled cfg = true -> N.of_nat (length (wg_nodes g)) <= max_cycle cfg ->
+  exists cs, detect_cycles g = Some cs /\
+    let ds := detect cfg (select_victim pol ws pr lc) cs in
+    (ds <> [] <-> exists x, rp (succs g) x x) /\
+    (forall c v, In (c, v) ds -> is_cycle (succs g) c /\ In v c).
+Proof. exact deadlock_report_total. Qed.
+
 Theorem C12_victim_in_cycle : forall pol ws pr lc cycle,
   cycle <> [] -> In (select_victim pol ws pr lc cycle) cycle.
 Proof. exact select_victim_in. Qed.
@@ -154,4 +166,5 @@ Print Assumptions C12_timeouts_leave_nothing.
 Print Assumptions C12_expiry.
 Print Assumptions C12_cycle_reported_iff_exists.
 Print Assumptions C12_deadlock_report.
+Print Assumptions C12_deadlock_detected_iff_cycle.
 Print Assumptions C12_victim_in_cycle.
